@@ -10,6 +10,7 @@ import Pysmi.Model.Symtab
 import Pysmi.Model.Syntax
 import Pysmi.Model.Struct
 import Pysmi.Model.Lexer
+import Pysmi.Model.LexCfg
 import Pysmi.Generated.LexTables
 import Pysmi.Model.LR
 /-!
@@ -539,13 +540,6 @@ end St
 namespace Lx
 open Pysmi.Lexer
 
-def cfgOf (variant : String) : Cfg :=
-  let (r, f) := if variant == "v1" then (Pysmi.Generated.Lex.reservedV1, Pysmi.Generated.Lex.forbiddenV1)
-                else (Pysmi.Generated.Lex.reservedV2, Pysmi.Generated.Lex.forbiddenV2)
-  { reserved := r.map (fun p => (p.1.toList, p.2)), forbidden := f.map (·.toList),
-    u32 := Pysmi.Generated.Lex.u32max, u64 := Pysmi.Generated.Lex.u64max,
-    macroErrorRule := Pysmi.Generated.Lex.macroErrorRule }
-
 def textOf (j : Json) : Except String (List Char) := do
   let cps ← getList (fun x => x.getNat?) j
   return cps.map Char.ofNat
@@ -685,7 +679,7 @@ partial def jPy : PyVal → Json
 def opParse (ld : Loaded) (j : Json) : Except String Json := do
   let variant ← (← j.getObjVal? "variant").getStr?
   let text ← Lx.textOf (← j.getObjVal? "text")
-  match parse (Lx.cfgOf variant) ld.tables ld.actions text with
+  match parse (Pysmi.Lexer.cfgOf variant) ld.tables ld.actions text with
   | .modules ast => return Json.mkObj [("ast", jPy ast)]
   | .lexerError l => return Json.mkObj [("error", .str "lexer"), ("line", l)]
   | .parserError l => return Json.mkObj [("error", .str "parser"), ("line", l)]
